@@ -147,7 +147,22 @@ def make_syst(n, m, mode):
 # ------------------------------------------------------------ Resampler.run call contract
 
 
-def make_resampler(scheme, n_particles, batches):
+def numpy_sampling_contract(ctx, kind, rec):
+    """documented input validation of numpy's samplers (part of the environment contract):
+    choice(p=...): p >= 0 and |sum(p) - 1| <= sqrt(eps) else ValueError; multinomial: sum(pvals[:-1]) <= 1 + 1e-12 else ValueError."""
+    if kind == "choice" and rec.get("p") is not None:
+        p = [SymReal.lift(v) for v in rec["p"]]
+        tot = _sum(p)
+        if bool((tot - 1 > EPS) | (1 - tot > EPS)):
+            raise ValueError("probabilities do not sum to 1")
+    if kind == "multinomial":
+        p = [SymReal.lift(v) for v in rec["pvals"]]
+        head = _sum(p[:-1]) if len(p) > 1 else SymReal.const(0)
+        if bool(head > 1 + Fraction(1, 10 ** 12)):
+            raise ValueError("sum(pvals[:-1]) > 1.0")
+
+
+def make_resampler(scheme, n_particles, batches, mode="norm"):
     N = sum(batches)
 
     def harness(ctx: PathCtx):
@@ -162,20 +177,36 @@ def make_resampler(scheme, n_particles, batches):
             k += nt
         st.set_current("beta", 0.5)
         w = reals(ctx, "w", N, lo=0)
-        ctx.assume(_sum(w).n == 1)
+        tot = _sum(w)
+        if mode == "norm":
+            ctx.assume(tot.n == 1)
+        else:
+            ctx.assume(z3.And(tot.n - 1 <= _rv(EPS), 1 - tot.n <= _rv(EPS)))
         weights = sarr(w)
         draws = {}
+        from vf.engine.real import SymInt
 
         def provider(kind, rec):
+            numpy_sampling_contract(ctx, kind, rec)
             if kind == "choice":
                 draws["choice"] = rec
-                size = rec["size"]
                 out = []
-                for j in range(int(size)):
+                for j in range(int(rec["size"])):
                     zi = ctx.register(f"c{j}", z3.Int(f"c{j}"))
                     ctx.assume(z3.And(zi >= 0, zi < len(rec["a"])))
-                    from vf.engine.real import SymInt
                     out.append(SymInt(zi).resolve(0, len(rec["a"]) - 1))
+                return np.array(out, dtype=int)
+            if kind == "multinomial":
+                draws["multinomial"] = rec
+                n, K = int(rec["n"]), len(rec["pvals"])
+                out, left = [], n
+                for j in range(K - 1):
+                    zi = ctx.register(f"m{j}", z3.Int(f"m{j}"))
+                    ctx.assume(z3.And(zi >= 0, zi <= left))
+                    v = SymInt(zi).resolve(0, left)
+                    out.append(v)
+                    left -= v
+                out.append(left)
                 return np.array(out, dtype=int)
             if kind == "random":
                 draws["random"] = rec
@@ -187,14 +218,14 @@ def make_resampler(scheme, n_particles, batches):
         with patched(resample_mod, np=NpProxy(random=stub)), patched(tools, np=NpProxy(random=stub)):
             try:
                 rs.run(weights)
-            except IndexError as e:
-                ctx.fail("returns-without-exception", f"IndexError: {e}")
+            except (IndexError, ValueError) as e:
+                ctx.fail("returns-without-exception", f"{type(e).__name__}: {e}")
                 return None
         ctx.ok("returns-without-exception")
         u = st._current["u"]
         ctx.check("exactly-n", z3.BoolVal(len(u) == n_particles and len(st._current["logl"]) == n_particles
                                           and len(st._current["x"]) == n_particles))
-        if scheme == "mult":
+        if scheme == "mult" and "choice" in draws:
             rec = draws.get("choice")
             ok = rec is not None and int(rec["size"]) == n_particles and rec["replace"] is True \
                 and len(rec["a"]) == N and list(rec["a"]) == list(range(N)) and rec["p"] is not None and len(rec["p"]) == N
@@ -204,11 +235,35 @@ def make_resampler(scheme, n_particles, batches):
                           z3.And(*[eq(rec["p"][i], w[i]) for i in range(N)]))
         return [len(u)]
 
+    def replay(m, label, v):
+        st = StateManager(n_dim=1)
+        k = 0
+        for nt in batches:
+            st.update_current({"u": np.full((nt, 1), 0.5), "x": np.arange(k, k + nt, dtype=float).reshape(nt, 1), "logl": -np.arange(k, k + nt, dtype=float),
+                               "beta": 0.5})
+            st.commit_current_to_history()
+            k += nt
+        st.set_current("beta", 0.5)
+        w = np.array([float(m[f"w{i}"]) for i in range(N)])
+        rs = resample_mod.Resampler(st, n_particles=n_particles, resample=scheme, clusterer=None, clustering=False)
+        saved = np.random.get_state()
+        np.random.seed(0)
+        err = None
+        try:
+            rs.run(w)
+        except Exception as e:
+            err = e
+        finally:
+            np.random.set_state(saved)
+        bad = err is not None or len(st.get_current("u")) != n_particles
+        return {"reproduced": bool(bad), "signature": f"Resampler.run:{scheme}:{label}", "payload": {"weights": w.tolist(), "sum": float(w.sum())},
+                "what": f"Resampler.run({scheme}) with weights {w.tolist()} (sum-1 = {w.sum() - 1:.3g}): " + (f"raised {type(err).__name__}: {err}" if err else "wrong count")}
+
     return Obligation(
-        f"resampler-{scheme}-n{n_particles}-hist{'x'.join(map(str, batches))}", harness, replay=None,
+        f"resampler-{scheme}-{mode}-n{n_particles}-hist{'x'.join(map(str, batches))}", harness, replay=replay,
         encodes=[resample_mod.Resampler.run, tools.systematic_resample],
-        bounds=f"history batches {batches}, n_particles={n_particles}, d=1, normalised symbolic weights",
-        stubs=["np.random.choice -> arbitrary indices in [0,len(a)) (contract stub, call parameters recorded)",
+        bounds=f"history batches {batches}, n_particles={n_particles}, d=1, symbolic weights with sum constraint '{mode}'",
+        stubs=["np.random.choice/multinomial -> arbitrary indices/counts; numpy's documented input validation (sum tolerance) modelled, call parameters recorded",
                "np.random.random -> symbolic u0 in [0,1)"], theory="QF_LRA")
 
 
@@ -284,7 +339,9 @@ def obligations(tier):
         for mode in ("tol", "norm", "renorm"):
             obs.append(make_syst(n, m, mode))
     obs.append(make_resampler("mult", 2, (2, 1)))
+    obs.append(make_resampler("mult", 2, (2, 1), mode="tol"))
     obs.append(make_resampler("syst", 2, (2, 1)))
+    obs.append(make_resampler("syst", 2, (2, 1), mode="tol"))
     obs.append(make_syst_fp(2, 2))
     if tier == "thorough":
         obs.append(make_resampler("mult", 3, (2, 2)))
